@@ -11,6 +11,7 @@ import (
 	"runtime"
 	"strings"
 	"sync"
+	"sync/atomic"
 	"time"
 )
 
@@ -142,6 +143,8 @@ func solveOne(file string, timeoutS int, seed int) solveResult {
 }
 
 // solveAll discharges all obligations of a VC in parallel.
+var sliceFallbacks int64
+
 func solveAll(vcs []*VC, dir string, timeoutS int, seed int, keep bool) {
 	type job struct {
 		vc *VC
@@ -151,6 +154,11 @@ func solveAll(vcs []*VC, dir string, timeoutS int, seed int, keep bool) {
 	for _, vc := range vcs {
 		for _, o := range vc.obls {
 			jobs = append(jobs, job{vc, o})
+		}
+	}
+	for _, vc := range vcs {
+		if vc.rawPrelude == "" && sliceEnabled() {
+			vc.sliceIndexFor() // built once, read-only afterwards
 		}
 	}
 	workers := runtime.NumCPU() / 2
@@ -189,6 +197,20 @@ func solveAll(vcs []*VC, dir string, timeoutS int, seed int, keep bool) {
 					to = 4
 				}
 				r := solveOne(file, to, seed)
+				if r.result != "unsat" && !j.o.Cover && j.o.Kind != "auto-frame" && strings.Contains(txt[:80], "(sliced)") && os.Getenv("VERIF_NOFALLBACK") == "" {
+					// the cone of influence may have dropped a needed fact: decide over the whole prefix
+					j.o.unsliced = true
+					atomic.AddInt64(&sliceFallbacks, 1)
+					if os.Getenv("VERIF_DEBUG") != "" {
+						fmt.Fprintf(os.Stderr, "slice fallback: %s (%s)\n", j.o.Name, r.result)
+					}
+					txt = j.vc.render(j.o, "ALL") + "(get-model)\n"
+					if err := os.WriteFile(file, []byte(txt), 0o644); err == nil {
+						r2 := solveOne(file, to, seed)
+						r2.secs += r.secs
+						r = r2
+					}
+				}
 				j.o.Result, j.o.Solver, j.o.Seconds = r.result, r.solver, r.secs
 				j.o.File = file
 				if r.result == "sat" || r.result == "error" || r.result == "unknown" {
